@@ -112,6 +112,9 @@ func cmdCheck(args []string) {
 			}
 			continue
 		}
+		if o.Status == "solver-error" {
+			v.Errors = append(v.Errors, fmt.Sprintf("solver rejected the query for %s: %s", o.Name, firstLines(o.Output, 3)))
+		}
 		g.total++
 		if o.Bounded {
 			g.bnd++
